@@ -509,6 +509,10 @@ func c17(x *mon.Ctx) {
 		hs = append(hs, &rtmrHistory{Reqs: []rtmrReq{q}})
 		hs = append(hs, &rtmrHistory{Pre: []string{"rtmr0-old=0", "rtmr3-old=3\n", "junk", "bad=xyz"}, Reqs: []rtmrReq{q}})
 	}
+	// event logs at sizes where a chunked reader meets its buffer boundary (64 KiB, 1 MiB and multiples, one byte either side)
+	for k, n := range []int{65535, 65536, 65537, 1<<20 - 1, 1 << 20, 1<<20 + 1, 1<<20 + 1<<19, 2 << 20, 3 << 20, 4<<20 + 1} {
+		hs = append(hs, &rtmrHistory{Reqs: []rtmrReq{{Kind: "log", Index: k % 4, Hash: uint(crypto.SHA384), Log: dg(n, byte(k))}, {Kind: "digest", Index: k % 4, Digest: dg(48, 9)}}})
+	}
 	// all sequences of length <= 3 over a reduced alphabet
 	var alpha []rtmrReq
 	for _, i := range []int{-1, 0, 1, 3, 4} {
